@@ -97,7 +97,19 @@ func ruleAcceptDominators(c *Ctx) {
 	// tree duplicates the last leaf of an odd level, [a,b,c,c] has the root of [a,b,c]). Shape: a loop over the
 	// block's transactions that looks each hash up in a set it fills and leaves AddBlock with an error on a hit,
 	// not nested under anything but the block-verification switch, and placed before storeBlock.
-	if fd := c.P.Func("pkg/core", "Blockchain", "AddBlock"); fd != nil {
+	for _, tg := range []struct {
+		fn    [3]string
+		store string
+		key   string
+	}{
+		{[3]string{"pkg/core", "Blockchain", "AddBlock"}, symStoreBlock, "AddBlock.tx-unique"},
+		{[3]string{"pkg/core/statesync", "Module", "AddBlock"}, "pkg/core/dao.(*Simple).StoreAsBlock", "statesync.AddBlock.tx-unique"},
+	} {
+		fd := c.P.Func(tg.fn[0], tg.fn[1], tg.fn[2])
+		if fd == nil {
+			c.Lost(tg.key+".anchor", tg.fn[1]+"."+tg.fn[2]+" not found")
+			continue
+		}
 		f := c.P.NewFuncCFG(fd)
 		info := f.Info
 		found, foundPos := false, token.NoPos
@@ -171,19 +183,17 @@ func ruleAcceptDominators(c *Ctx) {
 		})
 		before := false
 		if found {
-			for _, s := range f.CallSites(symStoreBlock) {
+			for _, s := range f.CallSites(tg.store) {
 				if foundPos < s.call.Pos() {
 					before = true
 				}
 			}
 		}
 		if found && before {
-			c.OK("AddBlock.tx-unique", c.P.Pos(foundPos), "the transactions of a block are checked for uniqueness (set of hashes, error on a hit) before storeBlock")
+			c.OK(tg.key, c.P.Pos(foundPos), "the transactions of a block are checked for uniqueness (set of hashes, error on a hit) before the block is stored")
 		} else {
-			c.Fail("AddBlock.tx-unique", c.P.Pos(fd.Decl.Pos()), "AddBlock stores a block without checking that its transactions are distinct: the Merkle tree duplicates the last leaf of an odd level, so the list with its last transaction repeated has the same root, block hash and witness; with VerifyTransactions off the repeated transaction is executed twice")
+			c.Fail(tg.key, c.P.Pos(fd.Decl.Pos()), tg.fn[1]+"."+tg.fn[2]+" stores a block without checking that its transactions are distinct: the Merkle tree duplicates the last leaf of an odd level, so the list with its last transaction repeated has the same root, block hash and witness; with VerifyTransactions off the repeated transaction is executed twice")
 		}
-	} else {
-		c.Lost("AddBlock.tx-unique.anchor", "AddBlock not found")
 	}
 	c.Floor("guards", len(c.Obls), 14)
 }
